@@ -242,6 +242,12 @@ def gen_finding():
                      dict(a="set", m=1, tgt=2 * S, dur=8, ease="lin", p=1, sk="imm", delay=0, ctgt=0),
                      dict(a="cb", frames=8), dict(a="cb", frames=8)]
             scen.append({"buf": buf, "cap": 3, "mode": "exact", "src": "directed-relink", "late": False, "steps": steps})
+        # an LFO that advances by more than one period per update (3 Hz or 5 Hz at 8 Hz with this buffer): its phase is
+        # taken modulo one period, however many periods went by
+        for fr, wave in ((3, "pulse"), (5, "pulse"), (3, "saw"), (2, "tri")):
+            steps = [add(1, "lfo", wave=wave, width=S // 2, fr=fix(fr * S), am=fix(S), of=fix(0)),
+                     dict(a="cb", frames=4), dict(a="cb", frames=8), dict(a="cb", frames=3), dict(a="cb", frames=8), dict(a="cb", frames=5)]
+            scen.append({"buf": buf, "cap": 3, "mode": "exact", "src": "directed-fast-lfo", "late": False, "steps": steps})
     return scen
 
 
